@@ -43,7 +43,7 @@ func (r *recRepo) Resolve(ctx context.Context, reference string) (ocispec.Descri
 func (r *recRepo) ListSignatures(ctx context.Context, desc ocispec.Descriptor, fn func([]ocispec.Descriptor) error) error {
 	w := r.w
 	w.events = append(w.events, event{'L', 0})
-	if !reflect.DeepEqual(desc, w.resolved) {
+	if !reflect.DeepEqual(desc, w.resolvedOrig) {
 		w.bad("ListSignatures got a descriptor other than the resolved one")
 	}
 	var all []ocispec.Descriptor
@@ -146,6 +146,8 @@ func execReal(a *Args, c *c10Case, id int64) (panicked any) {
 	// and a digest resolve to descriptors that differ in their annotations)
 	w.resolved, err = repo.Resolve(ctx, w.wantRef)
 	must(err)
+
+	w.snapshotDescs()
 
 	// page sizes from the case id (stable under replay)
 	prng := NewRng(uint64(id)*7919 + 13)
